@@ -102,9 +102,16 @@ def _lower(x):
 
 
 @_lower.register(Number)
-@_lower.register(Tensor)
 @_lower.register(Variable)
 def _lower_atom(x):
+    return x
+
+
+@_lower.register(Tensor)
+def _lower_tensor(x):
+    if x.inputs:
+        # the program would list these inputs but never index the constant
+        raise NotImplementedError("TODO compile Tensor constants with inputs")
     return x
 
 
